@@ -53,4 +53,26 @@ def strcmpS : List Char → List Char → Int
     if a.toNat % 256 = b.toNat % 256 then strcmpS as bs
     else if a.toNat % 256 < b.toNat % 256 then -1 else 1
 
+/-- the byte `strchr` looks for: its `int` argument converted to `char` -/
+def toChar (c : Int) : Int := (c + 128) % 256 - 128
+
+/-- `strchr(s, c) != NULL`: the byte occurs in the string or is the terminating NUL itself -/
+def strchrP (s : List Char) (c : Int) : Prop := (s.any fun ch => schar ch == toChar c) = true ∨ toChar c = 0
+instance (s : List Char) (c : Int) : Decidable (strchrP s c) := by unfold strchrP; exact inferInstance
+
+/-- an argument of a recorded call: integers and read-only strings are kept, everything else
+    (pointers the translated code does not look through, format strings) is `other` -/
+inductive Arg where
+  | int (v : Int)
+  | str (s : List Char)
+  | other
+  deriving DecidableEq, Repr
+
+/-- one call of a function the registry declares as an EFFECT of the translated function: the
+    translated function returns the list of these calls, in order, as its last result -/
+structure Ev where
+  name : String
+  args : List Arg
+  deriving DecidableEq, Repr
+
 end PdshVerif.C2Lean
